@@ -208,3 +208,66 @@ remove_node_sym = FunctionContract(
             ("return frozenset(nodes - {node})", "return frozenset(nodes)")],
 )
 CONTRACTS.append(remove_node_sym)
+
+
+# ------------------------------------------------------------------ ISMAGS._find_permutations
+PNode = TKey('PNode')
+PPair = TKey('PPair')
+
+
+def setup_fp(cx):
+    top, bot = cx.val('TOP', TSeq(TSet(PNode))), cx.val('BOT', TSeq(TSet(PNode)))
+    cx.spec_env.update(TOP=top, BOT=bot)
+    cx.assume(TSeq(TSet(PNode)).len(top.e) == TSeq(TSet(PNode)).len(bot.e))
+    pair = cx.uf('pair', [PNode, PNode], PPair)             # frozenset((a, b)): the unordered pair
+    only = cx.uf('only', [TSet(PNode)], PNode)              # next(iter(s)) of a one-element set: its element
+    a, b = z3.Const('pa', PNode.sort()), z3.Const('pb', PNode.sort())
+    cx.assume(z3.ForAll([a, b], pair(a, b) == pair(b, a)))
+
+    def frozenset_(e, t):
+        if not isinstance(t, tuple) or len(t) != 2:
+            raise EngineError('frozenset(%r)' % (t,))
+        return SV(PPair, pair(to_z3(t[0], PNode), to_z3(t[1], PNode)))
+    cx.spec_env['frozenset'] = Builtin(frozenset_, 'frozenset')
+
+    def next_(e, it):
+        src = getattr(it, 'src', None)
+        if src is None or not isinstance(type_of(src), TSet):
+            raise EngineError('next() of something else')
+        se = to_z3(src)
+        e.maybe_raise(se != TSet(PNode).empty(), 'StopIteration')
+        x = only(se)
+        e.assume(z3.Implies(se != TSet(PNode).empty(), z3.Select(se, x)))
+        return SV(PNode, x)
+    cx.spec_env['next'] = Builtin(next_, 'next')
+    cx.spec_env['iter'] = Builtin(lambda e, s: _IterOf(s), 'iter')
+    return dict(top_partitions=top, bottom_partitions=bot)
+
+
+class _IterOf:
+    def __init__(self, src):
+        self.src = src
+
+
+SPEC_FP = {
+    'moved': "lambda k: not forall(lambda x: (x in TOP[k]) == (x in BOT[k]), PNode)",
+}
+find_permutations = FunctionContract(
+    F, 'ISMAGS._find_permutations', 'C06', setup=setup_fp, spec_defs=SPEC_FP, spec_env=dict(PNode=PNode, PPair=PPair),
+    locals=dict(permutations=TSet(PPair)),
+    ensures=[
+        # the permutation found by a pair of fully refined partitions: for every position where the two cells differ, the pair
+        # (element of the top cell, element of the bottom cell) - and nothing else
+        "forall(lambda k: implies(0 <= k and k < len(TOP) and moved(k), pair(only(TOP[k]), only(BOT[k])) in result))",
+        "forall(lambda p: implies(p in result, exists(lambda k: 0 <= k and k < len(TOP) and moved(k) and p == pair(only(TOP[k]), only(BOT[k])))), PPair)",
+    ],
+    # a cell with more or fewer than one node: IndexError
+    raises={'IndexError': ["exists(lambda k: 0 <= k and k < len(TOP) and (len(TOP[k]) != 1 or len(BOT[k]) != 1))"]},
+    loops={'L1': LoopSpec(inv=[
+        "forall(lambda k: implies(0 <= k and k < _i and moved(k), pair(only(TOP[k]), only(BOT[k])) in permutations))",
+        "forall(lambda p: implies(p in permutations, exists(lambda k: 0 <= k and k < _i and moved(k) and p == pair(only(TOP[k]), only(BOT[k])))), PPair)",
+        "forall(lambda k: implies(0 <= k and k < _i, len(TOP[k]) == 1 and len(BOT[k]) == 1))"],
+        modifies=['permutations'])},
+    canary=[("if top != bot:", "if top == bot:"), ("if len(top) != 1 or len(bot) != 1:", "if len(top) != 1 and len(bot) != 1:")],
+)
+CONTRACTS.append(find_permutations)
